@@ -27,6 +27,20 @@ def gen(seed, tier):
     for src in sy.gen_sources(r, n_record=6, ge=3):
         for dec in (["max", 3], ["pi", 4], ["full", 2], ["prog"]):
             cases.append({"op": "create", "decl": backtrack, "decider": dec, "src": src})
+    # the same infeasible production as the ONLY production of a nested abstract type: the retry loop of that rule runs out of
+    # candidates and the enclosing rule recovers with another production
+    dep_fields = [["ann", ["list", ["ann", ["base", "int"], ["intrange", 0, 3]]], ["listsize", 0, 1, True]],
+                  ["ann", ["base", "int"], ["dependent", [0], ["varrange_of"]]]]
+    backtrack2 = {"classes": [
+        {"parent": None, "abs": "abc", "fields": [], "weight": None},
+        {"parent": 0, "abs": None, "fields": [S(2)], "weight": None},
+        {"parent": None, "abs": "abc", "fields": [], "weight": None},
+        {"parent": 2, "abs": None, "fields": dep_fields, "weight": None},
+        {"parent": 0, "abs": None, "fields": [["base", "int"]], "weight": None},
+        {"parent": 0, "abs": None, "fields": [S(0), S(0)], "weight": None}], "considered": [0, 1, 2, 3, 4, 5], "start": 0, "xdepth": False}
+    for src in sy.gen_sources(r, n_record=6, ge=3):
+        for dec in (["max", 4], ["pi", 4], ["full", 3], ["prog"]):
+            cases.append({"op": "create", "decl": backtrack2, "decider": dec, "src": src})
     for _ in range(240 if big else 70):
         d = grammars.gen_decl(r, {"weights": r.random() < 0.2, "tuples": True})
         for src in sy.gen_sources(r, n_record=1, extremes=(r.choice(["min", "max", "alt"]),), ge=1):
